@@ -251,6 +251,8 @@ fn update_best_com(
     resolution: f64,
     directed: bool,
 ) {
+    let current_com = *best_com;
+    let mut stay_gain: Option<f64> = None;
     for (nbr_com, wt) in weights2com.into_iter().sorted_by_key(|(com, _)| *com) {
         let gain = match directed {
             true => {
@@ -261,9 +263,21 @@ fn update_best_com(
             }
             false => 2.0 * wt - resolution * (deg_info.stot[nbr_com] * deg_info.degree) / m,
         };
+        if nbr_com == current_com {
+            stay_gain = Some(gain);
+        }
         if gain > *best_mod {
             *best_mod = gain;
             *best_com = nbr_com;
+        }
+    }
+    // A move must beat staying by more than rounding noise. Gains that are equal in exact
+    // arithmetic come out an ulp apart in either direction, and two nodes then chase each other
+    // between two communities for ever.
+    if let Some(stay) = stay_gain {
+        if *best_com != current_com && *best_mod <= stay + 1e-12 * stay.abs().max(best_mod.abs()) {
+            *best_mod = stay;
+            *best_com = current_com;
         }
     }
 }
